@@ -384,6 +384,15 @@ pub fn quiet_panics() {
             "panic".to_string()
         };
         let loc = info.location().map(|l| format!("{}:{}", l.file(), l.line())).unwrap_or_default();
+        if std::thread::panicking() && CATCH_DEPTH.with(|d| d.get()) > 0 && !loc.contains("core/src/panicking.rs") {
+            // a second panic while the first one (raised inside a library call) is unwinding: this
+            // is the library's own Drop code panicking too, and the process is about to abort.
+            // Leave a line for the driver, which turns it into a verdict.
+            eprintln!("LIBRARY-DOUBLE-PANIC '{}' at {}", msg, loc);
+        }
+        if std::env::var_os("SDV_LOUD").is_some() {
+            eprintln!("PANIC '{}' at {} (catch depth {}, already panicking: {})", msg, loc, CATCH_DEPTH.with(|d| d.get()), std::thread::panicking());
+        }
         if CATCH_DEPTH.with(|d| d.get()) == 0 {
             // a panic of the harness itself: never silent
             eprintln!("HARNESS PANIC '{}' at {}", msg, loc);
